@@ -37,6 +37,8 @@ class ScopeTasksDriver:
                 w.do(t, "sscope", self.nsid, [], None)
         elif name == "Spawn":
             w.do(t, "spawn", str(args[1]))
+        elif name == "SetWill":
+            w.do(t, "will", lambda: next((str(u) for u in range(1, self.n + 1) if w.status(str(u)) == "unborn"), None))
         elif name in ("Leave", "End"):
             w.do(t, "leave", "return")
         elif name == "Fail":
